@@ -412,6 +412,15 @@ func (e *Engine) modelWrites(f *ssa.Function, call *ssa.CallCommon, set map[stri
 	case "sort.Slice":
 		set["H|*"] = true
 		set["E|*"] = true
+	case "(*net/url.URL).Query":
+		set[qStateName] = true
+		set[allocName] = true
+	case "(net/url.Values).Set", "(net/url.Values).Add":
+		set[qStateName] = true
+	case "net/http.NewRequest", "net/url.Parse":
+		set["H|net/http.Request|*"] = true
+		set["H|net/url.URL|*"] = true
+		set[allocName] = true
 	}
 	if len(f.String()) > 12 && f.String()[:12] == "(*sync.Map)." {
 		set["SM|*"] = true
